@@ -80,6 +80,78 @@ META = {
         "level_note": "Metamorphic: both sides go through apollo's parser and builder; the relation between them is the property. The digest is the harness's own walk of the public Schema API.",
         "design_ref": "DESIGN.md section 6, C13",
     },
+    "C16": {
+        "budget": {"quick": 25, "thorough": 240},
+        "rule": "valid schemas from the model generator, the corpus (type-system part) and fixed bases; (a) re-validate unchanged: must succeed with equal schema, equal ordered digest and equal type-name set; "
+                "(b) random histories of 2-12 steps {add field / argument / input field / directive definition of built-in scalar type T, remove last added, validate} plus, for every base x every built-in scalar x every edit kind, "
+                "the exact history validate, add, validate, remove, validate, add, validate; after every validate the built-in scalars present in `types` must equal the referenced ones recomputed by the harness's own walk (shadow model) and validation must succeed; "
+                "(c) Valid<ExecutableDocument>::into_inner().validate(schema) succeeds and leaves the document unchanged. distinct_nontrivial = distinct (schema, history) pairs with >= 2 validate steps",
+        "assumptions": COMMON_ASSUMPTIONS + [
+            "edits are validity-preserving by construction (fresh names, nullable built-in scalar types)",
+            "`referenced` = inner named type of any field, argument, input field or directive-definition argument, built-in definitions included (so String and Boolean are always referenced)",
+        ],
+        "floors": {"any": {"step": ["add_field", "add_argument", "add_input_field", "add_directive_definition", "remove_last_added", "validate", "exec_revalidate"],
+                           "source": ["model", "corpus"]}},
+        "technique": "runtime monitoring: history monitor with a shadow model (set of referenced built-in scalars) over validate/unwrap/edit/validate sequences",
+        "level_text": "Exploration: 10^5 validate/edit histories over generated and corpus schemas are checked after every validate against a shadow model recomputed independently.",
+        "level_note": "The shadow model is the harness's own walk of the public Schema API; edits go through Node::make_mut on the unwrapped schema as a user would.",
+        "design_ref": "DESIGN.md section 6, C16",
+    },
+    "C19": {
+        "budget": {"quick": 35, "thorough": 480},
+        "rule": "valid (schema, executable) pairs from the model generators (plain and trivia printing), corpus and apollo-smith mixed documents; each valid executable document is serialized with 17 configurations "
+                "(default, no_indent, 5 whitespace prefixes x 3 initial levels), re-parsed and re-validated against the same schema and compared with PartialEq, second serialization byte-identical; "
+                "field sets generated against object/interface types (with and without outer braces) likewise; mixed texts: parse_mixed_validate, serialize both, concatenate, parse_mixed_validate, equal schema and document. "
+                "distinct_nontrivial = distinct valid documents / field sets / mixed texts round-tripped",
+        "assumptions": COMMON_ASSUMPTIONS + [
+            "validity (the property's precondition) is judged by apollo itself; invalid pairs are skipped and counted",
+            "documents without any definition are excluded: an empty ExecutableDocument serializes to the empty string, which is not a GraphQL Document",
+        ],
+        "floors": {"any": {"kind": ["doc", "field_set", "mixed"], "source": ["model", "corpus_mixed", "smith_mixed"]}},
+        "technique": "runtime monitoring: metamorphic round-trip monitor over generated valid pairs x serialization configurations",
+        "level_text": "Exploration: 10^4-10^5 valid documents, field sets and mixed texts x 17 serialization configurations are round-tripped and compared.",
+        "level_note": "Metamorphic: trusts ExecutableDocument/FieldSet PartialEq (which ignores locations) as the notion of `equal document`.",
+        "design_ref": "DESIGN.md section 6, C19",
+    },
+    "C21": {
+        "budget": {"quick": 55, "thorough": 720},
+        "quiet_stderr": True,
+        "rule": "texts: chains of five kinds (nested/flat fragment chains, directive-definition chains, input-object chains, nested selections) at 1/4, 1/2, limit-1, limit, limit+1, 2x, 3x each documented limit and random lengths, "
+                "17 hand-written cycles and edge files, every corpus file, token mutants of corpus and model documents, apollo-smith documents (also mutated), hostile text soup; each text runs the whole pipeline on a 2 MiB stack: "
+                "Document::parse, AST serialization, to_schema, to_schema_validate, to_executable(_validate), to_mixed_validate, validate_standalone_executable, check_max_depth, full introspection query through partial_execute, "
+                "and every diagnostic of every list is rendered (Display, Debug/colour path, to_report, to_json, unstable compat JSON, line_column_range) and the list order is checked. "
+                "distinct_nontrivial = distinct texts that produced at least one diagnostic",
+        "assumptions": COMMON_ASSUMPTIONS + [
+            "limit probes keep a factor-2 margin on both sides of each documented limit so that off-by-one choices are not judged",
+            "documents are capped at 64 KiB and chains at 600 links (validation cost is legitimately quadratic in chain length)",
+        ],
+        "floors": {"any": {"source": ["limit_chain", "cycle_or_edge", "corpus", "corpus_mutant", "model_mutant", "smith"],
+                           "stage_with_diagnostics_or_output": ["parse", "to_schema_validate", "to_executable_validate", "to_mixed_validate", "standalone", "introspection"]}},
+        "crash_class": "compiler",
+        "technique": "runtime monitoring: panic/abort monitor over the whole build-validate-serialize-introspect-render pipeline on adversarial generated inputs, plus sortedness and limit-enforcement assertions",
+        "level_text": "Exploration: 10^4-10^5 adversarial texts run the complete pipeline on a 2 MiB stack in child processes; every diagnostic produced is rendered in every format.",
+        "level_note": "Trusts catch_unwind + process-death attribution; wall-clock is never a verdict; ariadne's stderr complaints about missing sources are not panics and are ignored.",
+        "design_ref": "DESIGN.md section 6, C21",
+    },
+    "C22": {
+        "budget": {"quick": 120, "thorough": 900},
+        "plugin": "procdiff",
+        "rule": "a seed-derived list of 400 (quick) / 5000 (thorough) inputs — hand-written diagnostics-rich documents with every problem at >= 3 (here 6) distinct names, corpus diagnostics/ok files, "
+                "valid and token-mutated model documents, apollo-smith byte strings — is processed by EVERY worker process (16 independent processes, each with its own random hash seeds); per input 9 outputs are digested "
+                "(schema serialization, schema diagnostics with positions, executable serialization and diagnostics, mixed and standalone diagnostics, introspection JSON, multi-file build diagnostics, smith document) "
+                "and the per-process logs are compared offline; each worker also computes everything twice. distinct_nontrivial = distinct inputs with >= 2 non-empty outputs (counted once although every process handles them)",
+        "assumptions": COMMON_ASSUMPTIONS + [
+            "an order dependence over a 2-element collection survives K processes with probability 2^-(K-1) per site; inputs therefore carry >= 3 elements per order-dependent collection and K = 16",
+            "the budget is a cap, not the work size: every process completes the same list",
+        ],
+        "floors": {"any": {"output_kind_observed": ["schema_serialization", "schema_diagnostics", "executable_serialization", "executable_diagnostics", "mixed_diagnostics",
+                                                     "standalone_diagnostics", "introspection_json", "multi_file_diagnostics", "smith_document"],
+                           "source": ["rich", "corpus_diagnostics", "model_valid", "model_mutant", "smith_bytes"]}},
+        "technique": "runtime monitoring: offline checker over per-process output-digest logs from 16 independently hash-seeded processes",
+        "level_text": "Exploration: the same 400-5000 inputs are compiled, validated, serialized and introspected in 16 independent processes and all outputs compared byte-wise through digests.",
+        "level_note": "Compares digests (64-bit FNV) rather than full outputs; a collision could hide a difference with probability ~2^-64 per comparison.",
+        "design_ref": "DESIGN.md section 6, C22",
+    },
 }
 
 # Properties not claimed, with the reason (kept current; see DESIGN.md section 10).
